@@ -609,3 +609,30 @@ def crafted_programs(rng, flavour, n):
                  {"op": "write", "fl": pick_fl(rng, flavour), "key": kx(key), "data": "00"},
                  {"op": "read", "fl": pick_fl(rng, flavour), "key": kx(key)}]
         yield prog
+
+# ---------------------------------------------------------------- C12: mixed-flavour programs
+def mix_flavours(rng, prog, nbins=3):
+    """Re-route the ops of a program to `nbins` harness processes (bin 0 = sync-only binary, 1 = async-std, 2 = tokio) sharing
+    one cache directory.  Writer / reader handles stay in the process that opened them; every other op goes to a random
+    process, through its sync or (if it has one) async entry point."""
+    owner_w, owner_r, out = {}, {}, []
+    for op in prog:
+        op = dict(op)
+        o = op["op"]
+        if o in ("damage", "cmptree", "refcheck"):
+            out.append(op); continue
+        if o == "open":
+            b = rng.randrange(nbins); owner_w[op["w"]] = b
+        elif o in ("wchunk", "commit", "drop"):
+            b = owner_w.get(op["w"], 0)
+        elif o in ("ropen", "ropen_hash"):
+            b = rng.randrange(nbins); owner_r[op["r"]] = b
+        elif o in ("rchunk", "rall", "rcheck", "rdrop"):
+            b = owner_r.get(op["r"], 0)
+        else:
+            b = rng.randrange(nbins)
+        if "fl" in op and b == 0:
+            op["fl"] = "sync"          # the sync-only binary; every async entry point has a _sync twin (not conversely)
+        op["bin"] = b
+        out.append(op)
+    return out
